@@ -15,6 +15,7 @@ package ldb
 //@   ensures err == nil ==> fresh(result) && len(result) == b.pathLen + 1 + len(key)
 //@   ensures err == nil ==> bytesEq(result, 0, b.path, 0, b.pathLen) && result[b.pathLen] == '_'
 //@   ensures err == nil ==> bytesEq(result, b.pathLen + 1, key, 0, len(key))
+//@   ensures err == nil ==> strOf(result) == b.path + "_" + strOf(key)
 
 //@ func (*levelBucket).innerKeyForIterator
 //@   props C11 C19
@@ -22,6 +23,7 @@ package ldb
 //@   ensures fresh(result) && len(result) == b.pathLen + 1 + len(key)
 //@   ensures bytesEq(result, 0, b.path, 0, b.pathLen) && result[b.pathLen] == '_'
 //@   ensures bytesEq(result, b.pathLen + 1, key, 0, len(key))
+//@   ensures strOf(result) == b.path + "_" + strOf(key)
 
 // D3: the write batch as an overlay log.  wfBatch: maps allocated, every put entry non-nil, sequence numbers
 // never exceed seqNo (so a later operation always has the larger number), a put and a delete of one key never
@@ -65,7 +67,7 @@ package ldb
 //@   loop#1 invariant forall qs_ string :: has(result, qs_) == (visited(qs_) && isPut(b, qs_) && (len(prefix) == 0 || hasPrefix(qs_, prefix)))
 
 // D4: bucket operations = overlay of this transaction's batch over the committed database, at the inner key.
-//@ define ikey(b, key) = strOf(b.innerKeyForIterator(key))
+//@ define ikey(b, key) = (b.path + "_" + strOf(key))
 //@ define wfBucketTx(b) = (b != nil && b.pathLen == len(b.path) && b.tx != nil && b.tx.l != nil && (!b.tx.readOnly ==> wfBatch(b.tx.b) && b.tx.b.seqNo < 0xffffffff))
 //@ define batchSame(bt) = (bt.seqNo == old(bt.seqNo) && (forall qs_ string :: has(bt.puts, qs_) == old(has(bt.puts, qs_)) && bt.puts[qs_] == old(bt.puts[qs_]) && has(bt.deletes, qs_) == old(has(bt.deletes, qs_)) && bt.deletes[qs_] == old(bt.deletes[qs_])))
 
